@@ -218,6 +218,11 @@ impl C16 {
                     missing_newline: c.missing_newline(),
                 })
                 .collect();
+            if op.tag() == DiffTag::Replace
+                && (op.old_range().len() > 32 || op.new_range().len() > 32)
+            {
+                out.count("replace_over_32_lines", 1);
+            }
             let tag_op = |f: Fail, what: String| Fail {
                 clause: f.clause,
                 detail: format!("op={} {}: {}", oi, what, f.detail),
@@ -295,6 +300,7 @@ impl C16 {
                 let run = inline_exec(diff, op, Mode::Deadline, Sched::Indexed(k), hasher)
                     .map_err(pan(format!("k={}", k)))?;
                 out.execs += 1;
+                crate::engine::trace(|| format!("op {} {:?} inner deadline expires at probe {} of {}: first_expired={:?} changes={:?}", oi, op, k, kmax, run.first_expired, run.changes.iter().map(|c| (c.tag as char, c.values.iter().map(|(e, v)| (*e, String::from_utf8_lossy(v).to_string())).collect::<Vec<_>>())).collect::<Vec<_>>()));
                 judge(op, &plain, &run.changes).map_err(|f| tag_op(f, format!("k={}", k)))?;
                 if run.asked.iter().any(|&a| a != DL) {
                     return fail(
@@ -466,6 +472,7 @@ impl Prop for C16 {
             ("inline_assembled", agg.hits[23]),
             ("assembled_from_partial_inner_diff", c("assembled_from_partial_inner_diff")),
             ("default_500ms_budget_expired", agg.faults[F_DEFAULT_EXPIRED]),
+            ("replace_ops_with_over_32_lines", c("replace_over_32_lines")),
         ]
     }
 }
